@@ -121,10 +121,12 @@ def judge(prog, run, r):
                     open_before.discard(e[2])
             # a pool doer object can have finished under this scheduler (it stays listed in .doers) and be running a
             # new lifecycle under ANOTHER scheduler: that lifecycle is not this scheduler's to close
+            elsewhere = {}        # name -> the other scheduler its open lifecycle runs under
             for n in list(open_before):
                 hosts = [h for (sq, nm, h) in run.ctx.host_log if nm == n and sq <= entered_at.get(n, -1)]
                 if hosts and (getattr(hosts[-1], "vname", None) or "doist") != c["host"]:
                     open_before.discard(n)
+                    elsewhere[n] = getattr(hosts[-1], "vname", None) or "doist"
             for n in targets:
                 mine = [e[1] for e in win if e[2] == n and e[1] != "x"]
                 if n == c["by"]:
@@ -134,6 +136,16 @@ def judge(prog, run, r):
                         return
                     continue
                 if n not in open_before:
+                    if mine and n in elsewhere:
+                        # it runs under another scheduler: if that scheduler (or one above it) is itself removed by
+                        # this call, the doer is legitimately closed as its child
+                        h, chain = elsewhere[n], set()
+                        while h and h != "doist" and h not in chain:
+                            chain.add(h)
+                            hh = run.ctx.host.get(h)
+                            h = getattr(hh, "vname", None) or "doist"
+                        if chain & set(targets):
+                            continue
                     if mine:
                         r.fail("C06/remove-dead-doer-events", "call #%d: %s was not live but got %r" % (k, n, mine))
                         return
